@@ -12,7 +12,16 @@ import (
 
 func init() {
 	scenarios["pacer-C01"] = func(cfg *simrt.Config) simrt.RunFn {
-		return func(t *simrt.Tape, keep bool) simrt.Outcome { return runPacer(t, keep) }
+		return func(t *simrt.Tape, keep bool) simrt.Outcome {
+			// a pacer that never answers (a loop that wraps instead of ending) is a violation, not trouble of the
+			// harness: the closed loop runs under a guard that counts processor time
+			var out simrt.Outcome
+			if simrt.Bounded(60*time.Second, func() { out = runPacer(t, keep) }) {
+				v := &simrt.Violation{Prop: "C01", Class: "C01.hang", Msg: "the pacer did not answer a Pace (or Rate) call within 60s of processor time: arithmetic that wraps instead of stopping the attack", Tags: map[string]string{"nominimise": "1"}}
+				return simrt.Outcome{V: v, LogHash: "hang", NonTriv: true}
+			}
+			return out
+		}
 	}
 }
 
